@@ -470,7 +470,15 @@ func sameThroughAnyReader(data []byte, want *igc.T, wantErr error) error {
 		name string
 		r    io.Reader
 	}
+	// a seekable reader that stands in the middle of a longer stream: what lies before
+	// its position (another track) is none of Read's business
+	const before = "AXYZearlier\nHFDTE010203\nB1011125230000N00130000WA0012300456\nB1011135230001N00130001WA0012400457\n"
+	mid := bytes.NewReader(append([]byte(before), data...))
+	_, _ = mid.Seek(int64(len(before)), io.SeekStart)
+	sec := io.NewSectionReader(bytes.NewReader(append([]byte(before), data...)), int64(len(before)), int64(len(data)))
 	ways := []way{
+		{"the rest of a *bytes.Reader that was read up to the start of this track", mid},
+		{"an *io.SectionReader over the part of a longer stream that holds this track", sec},
 		{"io.EOF with the last bytes", iotest.DataErrReader(bytes.NewReader(data))},
 		{"pieces, io.EOF with the last piece", &lastEOFReader{data: append([]byte(nil), data...), n: piece}},
 	}
